@@ -1,53 +1,98 @@
-// Verification model of std::collections::{HashMap, HashSet}: association list, insertion order.
+// Verification models of std::collections::{HashMap, HashSet} and lru::LruCache: association lists, insertion order.
 use std::borrow::Borrow;
 
-pub(crate) struct HashMap<K, V> { items: Vec<(K, V)> }
+pub(crate) const MODEL_CAP: usize = 4;
+
+/// Fixed-capacity association list (insertion order). Slots live inline in the struct, so CBMC sees typed
+/// field accesses instead of byte-level accesses into a heap buffer (measured: two boxed operations in a
+/// Vec-backed map exhausted 12 GB, the same harness with inline slots finishes). Exceeding MODEL_CAP entries
+/// is a harness-bound violation and panics.
+pub(crate) struct HashMap<K, V> { slots: [Option<(K, V)>; MODEL_CAP], n: usize }
 
 pub(crate) mod hash_map {
     pub(crate) enum Entry<'a, K, V> { Occupied(OccupiedEntry<'a, K, V>), Vacant(VacantEntry<'a, K, V>) }
     pub(crate) struct OccupiedEntry<'a, K, V> { pub(crate) map: &'a mut super::HashMap<K, V>, pub(crate) index: usize }
     pub(crate) struct VacantEntry<'a, K, V> { pub(crate) map: &'a mut super::HashMap<K, V>, pub(crate) key: K }
-    impl<'a, K, V> VacantEntry<'a, K, V> {
+    impl<'a, K: Eq, V> VacantEntry<'a, K, V> {
         pub(crate) fn insert(self, value: V) -> &'a mut V {
-            self.map.items.push((self.key, value));
-            let n = self.map.items.len();
-            &mut self.map.items[n - 1].1
+            let i = self.map.push_slot(self.key, value);
+            match &mut self.map.slots[i] { Some(kv) => &mut kv.1, None => unreachable!() }
         }
     }
 }
 
 impl<K: Eq, V> HashMap<K, V> {
-    pub(crate) fn new() -> Self { HashMap { items: Vec::new() } }
+    pub(crate) fn new() -> Self { HashMap { slots: [None, None, None, None], n: 0 } }
+    fn push_slot(&mut self, k: K, v: V) -> usize {
+        assert!(self.n < MODEL_CAP, "gv model: HashMap model capacity exceeded (harness bound)");
+        let i = self.n;
+        self.slots[i] = Some((k, v));
+        self.n += 1;
+        i
+    }
     fn find<Q: ?Sized + Eq>(&self, k: &Q) -> Option<usize> where K: Borrow<Q> {
         let mut i = 0;
-        while i < self.items.len() {
-            if self.items[i].0.borrow() == k { return Some(i); }
+        while i < self.n {
+            if let Some(kv) = &self.slots[i] { if kv.0.borrow() == k { return Some(i); } }
             i += 1;
         }
         None
     }
+    // Lookups act INSIDE the loop, where the slot index is a constant after unrolling; returning a symbolic
+    // index first and indexing afterwards makes CBMC build symbolic array accesses over the whole state (measured OOM).
     pub(crate) fn insert(&mut self, k: K, v: V) -> Option<V> {
-        if let Some(i) = self.find(&k) {
-            Some(std::mem::replace(&mut self.items[i].1, v))
-        } else {
-            self.items.push((k, v));
-            None
+        let mut i = 0;
+        while i < self.n {
+            if let Some(kv) = &mut self.slots[i] { if kv.0 == k { return Some(std::mem::replace(&mut kv.1, v)); } }
+            i += 1;
         }
+        self.push_slot(k, v);
+        None
     }
-    pub(crate) fn get<Q: ?Sized + Eq>(&self, k: &Q) -> Option<&V> where K: Borrow<Q> { self.find(k).map(|i| &self.items[i].1) }
+    pub(crate) fn get<Q: ?Sized + Eq>(&self, k: &Q) -> Option<&V> where K: Borrow<Q> {
+        let mut i = 0;
+        while i < self.n {
+            if let Some(kv) = &self.slots[i] { if kv.0.borrow() == k { return Some(&kv.1); } }
+            i += 1;
+        }
+        None
+    }
     pub(crate) fn get_mut<Q: ?Sized + Eq>(&mut self, k: &Q) -> Option<&mut V> where K: Borrow<Q> {
-        match self.find(k) { Some(i) => Some(&mut self.items[i].1), None => None }
+        let n = self.n;
+        let mut i = 0;
+        for slot in self.slots.iter_mut() {
+            if i >= n { break; }
+            if let Some(kv) = slot { if (kv.0).borrow() == k { return Some(&mut kv.1); } }
+            i += 1;
+        }
+        None
     }
-    pub(crate) fn contains_key<Q: ?Sized + Eq>(&self, k: &Q) -> bool where K: Borrow<Q> { self.find(k).is_some() }
+    pub(crate) fn contains_key<Q: ?Sized + Eq>(&self, k: &Q) -> bool where K: Borrow<Q> { self.get(k).is_some() }
     pub(crate) fn remove<Q: ?Sized + Eq>(&mut self, k: &Q) -> Option<V> where K: Borrow<Q> {
-        match self.find(k) { Some(i) => Some(self.items.remove(i).1), None => None }
+        let mut i = 0;
+        while i < self.n {
+            let hit = match &self.slots[i] { Some(kv) => kv.0.borrow() == k, None => false };
+            if hit {
+                let out = self.slots[i].take();
+                let mut j = i;
+                while j + 1 < self.n { self.slots[j] = self.slots[j + 1].take(); j += 1; }
+                self.n -= 1;
+                return out.map(|kv| kv.1);
+            }
+            i += 1;
+        }
+        None
     }
-    pub(crate) fn len(&self) -> usize { self.items.len() }
-    pub(crate) fn is_empty(&self) -> bool { self.items.is_empty() }
-    pub(crate) fn clear(&mut self) { self.items.clear() }
-    pub(crate) fn keys(&self) -> impl Iterator<Item = &K> { self.items.iter().map(|kv| &kv.0) }
-    pub(crate) fn values(&self) -> impl Iterator<Item = &V> { self.items.iter().map(|kv| &kv.1) }
-    pub(crate) fn iter(&self) -> impl Iterator<Item = (&K, &V)> { self.items.iter().map(|kv| (&kv.0, &kv.1)) }
+    pub(crate) fn len(&self) -> usize { self.n }
+    pub(crate) fn is_empty(&self) -> bool { self.n == 0 }
+    pub(crate) fn clear(&mut self) {
+        let mut i = 0;
+        while i < MODEL_CAP { self.slots[i] = None; i += 1; }
+        self.n = 0;
+    }
+    pub(crate) fn keys(&self) -> impl Iterator<Item = &K> { self.slots.iter().filter_map(|s| s.as_ref().map(|kv| &kv.0)) }
+    pub(crate) fn values(&self) -> impl Iterator<Item = &V> { self.slots.iter().filter_map(|s| s.as_ref().map(|kv| &kv.1)) }
+    pub(crate) fn iter(&self) -> impl Iterator<Item = (&K, &V)> { self.slots.iter().filter_map(|s| s.as_ref().map(|kv| (&kv.0, &kv.1))) }
     pub(crate) fn entry(&mut self, k: K) -> hash_map::Entry<'_, K, V> {
         match self.find(&k) {
             Some(index) => hash_map::Entry::Occupied(hash_map::OccupiedEntry { map: self, index }),
@@ -56,32 +101,69 @@ impl<K: Eq, V> HashMap<K, V> {
     }
 }
 
+pub(crate) struct IntoIter<K, V> { slots: [Option<(K, V)>; MODEL_CAP], i: usize }
+impl<K, V> Iterator for IntoIter<K, V> {
+    type Item = (K, V);
+    fn next(&mut self) -> Option<(K, V)> {
+        while self.i < MODEL_CAP {
+            let v = self.slots[self.i].take();
+            self.i += 1;
+            if v.is_some() { return v; }
+        }
+        None
+    }
+}
 impl<K, V> IntoIterator for HashMap<K, V> {
     type Item = (K, V);
-    type IntoIter = std::vec::IntoIter<(K, V)>;
-    fn into_iter(self) -> Self::IntoIter { self.items.into_iter() }
+    type IntoIter = IntoIter<K, V>;
+    fn into_iter(self) -> Self::IntoIter { IntoIter { slots: self.slots, i: 0 } }
 }
 
-pub(crate) struct HashSet<K> { items: Vec<K> }
+pub(crate) struct HashSet<K> { slots: [Option<K>; MODEL_CAP], n: usize }
 impl<K: Eq> HashSet<K> {
-    pub(crate) fn new() -> Self { HashSet { items: Vec::new() } }
-    pub(crate) fn contains(&self, k: &K) -> bool { self.items.iter().any(|x| x == k) }
-    pub(crate) fn insert(&mut self, k: K) -> bool { if self.contains(&k) { false } else { self.items.push(k); true } }
+    pub(crate) fn new() -> Self { HashSet { slots: [None, None, None, None], n: 0 } }
+    fn find(&self, k: &K) -> Option<usize> {
+        let mut i = 0;
+        while i < self.n {
+            if let Some(x) = &self.slots[i] { if x == k { return Some(i); } }
+            i += 1;
+        }
+        None
+    }
+    pub(crate) fn contains(&self, k: &K) -> bool { self.find(k).is_some() }
+    pub(crate) fn insert(&mut self, k: K) -> bool {
+        if self.contains(&k) { return false; }
+        assert!(self.n < MODEL_CAP, "gv model: HashSet model capacity exceeded (harness bound)");
+        self.slots[self.n] = Some(k);
+        self.n += 1;
+        true
+    }
     pub(crate) fn remove(&mut self, k: &K) -> bool {
         let mut i = 0;
-        while i < self.items.len() { if &self.items[i] == k { self.items.remove(i); return true; } i += 1; }
+        while i < self.n {
+            let hit = match &self.slots[i] { Some(x) => x == k, None => false };
+            if hit {
+                self.slots[i] = None;
+                let mut j = i;
+                while j + 1 < self.n { self.slots[j] = self.slots[j + 1].take(); j += 1; }
+                self.n -= 1;
+                return true;
+            }
+            i += 1;
+        }
         false
     }
-    pub(crate) fn clear(&mut self) { self.items.clear() }
-    pub(crate) fn len(&self) -> usize { self.items.len() }
+    pub(crate) fn clear(&mut self) {
+        let mut i = 0;
+        while i < MODEL_CAP { self.slots[i] = None; i += 1; }
+        self.n = 0;
+    }
+    pub(crate) fn len(&self) -> usize { self.n }
+    pub(crate) fn is_empty(&self) -> bool { self.n == 0 }
+    pub(crate) fn iter(&self) -> impl Iterator<Item = &K> { self.slots.iter().filter_map(|s| s.as_ref()) }
 }
 impl<K: std::fmt::Debug> std::fmt::Debug for HashSet<K> {
-    fn fmt(&self, f: &mut std::fmt::Formatter<'_>) -> std::fmt::Result { self.items.fmt(f) }
-}
-
-impl<K: Eq> HashSet<K> {
-    pub(crate) fn is_empty(&self) -> bool { self.items.is_empty() }
-    pub(crate) fn iter(&self) -> impl Iterator<Item = &K> { self.items.iter() }
+    fn fmt(&self, f: &mut std::fmt::Formatter<'_>) -> std::fmt::Result { self.slots.fmt(f) }
 }
 
 // Verification model of lru::LruCache (API subset used by alias.rs): vector ordered from
